@@ -5,7 +5,7 @@
    exit, the credential writes of internalConnect / Cmd.Oper and the Sensitive/Echo gates
    of the loggers; Spec/SaslSpec.v is the property's own reading of "chunks". *)
 Require Import Bytes Utf8 Base64 CapLib StsState Cap CapSpec CapProofs.
-Require Import Sasl SaslSpec Base64Lemmas SaslProofs SaslFailClosed SaslLogProofs SaslStateful SaslCapLines.
+Require Import Sasl SaslSpec Base64Lemmas SaslProofs SaslFailClosed SaslLogProofs SaslStateful SaslCapLines SaslFaultPlain.
 
 (* ---- chunking ------------------------------------------------------------------ *)
 
@@ -358,3 +358,63 @@ Theorem C09_stateful_error_iff_fatal_cap : forall c, cfg_tracking c = true ->
   (cn_returned cn' <> None <-> Exists (fun x => step_fatalb x = true) steps).
 Proof. exact rsx_returned_iff_fatal. Qed.
 Print Assumptions C09_stateful_error_iff_fatal_cap.
+
+(* ---- write faults -----------------------------------------------------------------------
+   sendLoop returns the I/O error of a failed write unchanged; internalConnect prints it
+   ("received error, beginning cleanup: %v") and Connect returns it.  Neither depends on the
+   event whose write failed; the Debug lines caused by a Sensitive event whose write fails
+   do not depend on its parameters (strip_raw arbitrary). *)
+Theorem C09_write_fault_error_independent : forall fault e e',
+  send_loop_error fault e = send_loop_error fault e'.
+Proof. exact send_error_independent_of_event. Qed.
+Print Assumptions C09_write_fault_error_independent.
+
+Theorem C09_write_fault_ni : forall strip_raw w e ps, ev_sensitive e = true ->
+  write_fault_log strip_raw w (with_params e ps) = write_fault_log strip_raw w e /\
+  write_fault_result w (with_params e ps) = write_fault_result w e /\
+  write_fault_log strip_raw w e = [t_gt ++ t_extra ++ ev_cmd e ++ t_rparen; t_cleanup ++ w].
+Proof. exact write_fault_ni. Qed.
+Print Assumptions C09_write_fault_ni.
+
+Theorem C09_secret_write_fault_constant : forall strip_raw w,
+  (forall pw pw', write_fault_log strip_raw w (pass_event pw) = write_fault_log strip_raw w (pass_event pw')) /\
+  (forall x x', write_fault_log strip_raw w (webirc_event x) = write_fault_log strip_raw w (webirc_event x')) /\
+  (forall u p u' p', write_fault_log strip_raw w (oper_event u p) = write_fault_log strip_raw w (oper_event u' p')) /\
+  (forall c c', write_fault_log strip_raw w (chunk_event (Payload c)) =
+                write_fault_log strip_raw w (chunk_event (Payload c'))).
+Proof. exact secret_write_fault_constant. Qed.
+Print Assumptions C09_secret_write_fault_constant.
+
+(* ---- PLAIN is stateless --------------------------------------------------------------------
+   A sequence of Encode calls on one SASLPlain value whose fields change between the calls:
+   every answer is base64 of the fields as they are at that call (and "" when the challenge
+   is not "+"), independent of the other calls; in a sequence of exchanges each challenge is
+   answered with the chunks of the current credential. *)
+Theorem C09_plain_calls_current_fields : forall l,
+  Forall2 (fun x r =>
+             (snd x = [c_plus] ->
+              r = plain_encode (fst (fst x)) (snd (fst x)) /\
+              (bytes_ok (fst (fst x)) -> bytes_ok (snd (fst x)) ->
+               base64_decode r = Some (fst (fst x) ++ 0 :: fst (fst x) ++ 0 :: snd (fst x)))) /\
+             (snd x <> [c_plus] -> r = []))
+          l (plain_calls l).
+Proof. exact plain_calls_current_fields. Qed.
+Print Assumptions C09_plain_calls_current_fields.
+
+Theorem C09_plain_calls_no_memory : forall pre post pre' post' x,
+  nth (length pre) (plain_calls (pre ++ x :: post)) [] =
+  nth (length pre') (plain_calls (pre' ++ x :: post')) [].
+Proof. exact plain_calls_no_memory. Qed.
+Print Assumptions C09_plain_calls_no_memory.
+
+Theorem C09_plain_sequence_delivers : forall c, cfg_tracking c = true ->
+  forall (steps : list (str * str * event)) ns,
+  Forall (fun x => challenge_plus (snd x)) steps ->
+  exists outs,
+    run_stateful c (mkConn ns None)
+      (List.map (fun x => (plain_mech (fst (fst x)) (snd (fst x)), snd x)) steps) =
+      Ok (mkConn ns None, outs) /\
+    writes_of outs =
+      flat_map (fun x => List.map chunk_event (chunks_of (plain_encode (fst (fst x)) (snd (fst x))))) steps.
+Proof. exact plain_sequence_delivers. Qed.
+Print Assumptions C09_plain_sequence_delivers.
